@@ -77,7 +77,13 @@ def check_notify_returns_notified(mod, rep, rid):
     for f in mod.defined.values():
         if f.name in markers or not any(i.op == 'call' and i.callee in markers for i in f.real_insts()):
             continue
-        if not any(i.op == 'call' and i.callee == 'nsync_mu_lock' and util.last_field(util.addr_class(mod, f, i.ops[0])) == MU for i in f.real_insts()):
+        # the notifier proper: it locks the mutex of the note it was given (its own argument), not that of a child reached through a list
+        def locks_own_arg(i):
+            if not (i.op == 'call' and i.callee == 'nsync_mu_lock'):
+                return False
+            ac = util.addr_class(mod, f, i.ops[0])
+            return ac['kind'] == 'arg' and util.last_field(ac) == MU and len([x for x in ac['path'] if '.' in x]) == 1
+        if not any(locks_own_arg(i) for i in f.real_insts()):
             continue
         def block_ok(b):
             for i in f.bmap[b].insts:
